@@ -361,7 +361,7 @@ def run_struct_case(spec, rng_seed):
 
 
 CHECKERS = {"blocks": "blocks_case_ok", "creation": "creation_case_ok", "random": "random_case_ok",
-            "op": "op_case_ok", "unary": "unary_case_ok", "tree": "tree_case_ok"}
+            "op": "op_case_ok", "unary": "unary_case_ok", "tree": "tree_case_ok", "ctor": "ctor_case_ok", "attr": "attr_case_ok"}
 
 
 def coq_check(name, groups):
@@ -1248,6 +1248,227 @@ def transform_case(rng, tname):
     return {"status": "viol" if what else "ok", "what": what, "inp": inp}
 
 
+# ---------------------------------------------------------------- (F) constructor guard: mixed dtypes in every order
+
+CTOR_KINDS = ["float32", "float64", "complex64", "complex128", "int32", "int64", "float16", "bool", "pylist-float", "pylist-int"]
+
+
+def ctor_block(kind, i):
+    """one block of the given kind (shapes vary with the position)"""
+    import jax.numpy as jnp
+    shp = [(2,), (), (2, 2), (3,)][i % 4]
+    if kind == "pylist-float":
+        return [1.0, 2.5]
+    if kind == "pylist-int":
+        return [1, 2]
+    a = np.arange(1, (int(np.prod(shp)) if shp else 1) + 1).reshape(shp)
+    return jnp.asarray(a.astype(kind))
+
+
+def ctor_cases(ctx):
+    import itertools
+    rng = ctx.rng
+    cases = []
+    for k in CTOR_KINDS:                                   # homogeneous lists are accepted
+        cases.append([k] * rng.randint(1, 3))
+    for a, b in itertools.permutations(CTOR_KINDS, 2):     # every ordered pair
+        cases.append([a, b])
+    triples = list(itertools.combinations(CTOR_KINDS, 3))
+    extra = [(a, a, b) for a, b in itertools.permutations(CTOR_KINDS[:8], 2)]
+    chosen = (rng.sample(triples, 10) + rng.sample(extra, 6)) if ctx.quick else triples + extra
+    for t in chosen:                                        # widest first / in the middle / last
+        for perm in sorted(set(itertools.permutations(t))):
+            cases.append(list(perm))
+    return cases
+
+
+def run_ctor_case(kinds, how):
+    """-> (what | None, coq case, inp)"""
+    import jax.numpy as jnp
+    import scico.numpy as snp
+    from scico.numpy import BlockArray
+    blocks = [ctor_block(k, i) for i, k in enumerate(kinds)]
+    eff = [str(jnp.asarray(b).dtype) for b in blocks]       # dtype each block has as a jax array
+    tags = sorted(set(eff))
+    dts = [tags.index(e) + 1 for e in eff]
+    inp = {"kinds": kinds, "dtypes": eff, "how": how}
+    want_ok = len(set(eff)) == 1
+    exc = None
+    try:
+        X = BlockArray(blocks) if how == "BlockArray" else snp.blockarray(tuple(blocks) if how == "blockarray-tuple" else blocks)
+    except Exception as e:  # noqa
+        exc = e
+    accepted = exc is None
+    coq = ("ctor", f"({coq_list([zlit(d) for d in dts])}, {'true' if accepted else 'false'})")
+    what = None
+    if want_ok:
+        if exc is not None:
+            what = f"homogeneous blocks rejected ({type(exc).__name__})"
+        elif [str(b.dtype) for b in X.arrays] != eff or str(X.dtype) != eff[0]:
+            what = "blocks stored with a dtype other than their own"
+    else:
+        if exc is None:
+            got = [str(b.dtype) for b in X.arrays]
+            what = (f"blocks of different dtypes accepted without ValueError (x.dtype = {X.dtype}, block dtypes {got})"
+                    if len(set(got)) > 1 else "blocks of different dtypes silently cast to one dtype")
+        elif not isinstance(exc, ValueError):
+            what = f"blocks of different dtypes rejected with {type(exc).__name__}, not ValueError"
+            coq = None
+    return what, coq, inp
+
+
+# ---------------------------------------------------------------- (G) lifted attributes read while traced
+
+TRACE_MODES = ["eager", "jit", "jit-complex", "grad", "vmap", "jit-operator", "jit-functional"]
+
+
+def attr_names():
+    from scico.numpy import _blockarray as B
+    return [("prop", n) for n in B.da_props + ["dtype"]] + [("method", n) for n in B.da_methods]
+
+
+def probe_attrs(X, names, rec):
+    """read every lifted attribute of X and of its blocks (runs eagerly or inside a trace);
+    appends one record per attribute to rec, returns (lifted array leaves, per-block array leaves)"""
+    import jax
+    from scico.numpy import BlockArray
+    got_l, exp_l = [], []
+    blocks = list(X.arrays)
+    traced = any(isinstance(b, jax.core.Tracer) for b in blocks)
+    for kind, name in names:
+        args = (METHOD_ARGS.get(name) or ()) if kind == "method" else ()
+
+        def get(o):
+            v = getattr(o, name)
+            return v(*args) if kind == "method" else v
+        r = {"kind": kind, "name": name, "traced": traced, "status": "ok", "what": None, "lo": len(got_l)}
+        rec.append(r)
+        try:
+            exps = [get(b) for b in blocks]
+        except Exception as e:  # noqa
+            try:
+                get(X)
+            except Exception as e2:  # noqa
+                if type(e2) is type(e):
+                    r["status"] = "both-raise"
+                else:
+                    r.update(status="viol", what=f"raises {type(e2).__name__} where the per-block attribute raises {type(e).__name__}")
+            else:
+                r.update(status="viol", what=f"returns a value although the per-block attribute raises {type(e).__name__}")
+            r["hi"] = len(got_l)
+            continue
+        try:
+            res = get(X)
+        except Exception as e:  # noqa
+            r.update(status="viol", what=f"raises {type(e).__name__} although the per-block attribute succeeds", hi=len(got_l))
+            continue
+        arrv = isinstance(exps[0], jax.Array)          # tracers are jax.Array instances as well
+        r["arrv"] = arrv
+        if name == "dtype":
+            r.update(container=2, n=1, hi=len(got_l))
+            if res != exps[0]:
+                r.update(status="viol", what="dtype differs from the dtype of the blocks")
+            continue
+        r["container"] = 1 if isinstance(res, BlockArray) else (0 if isinstance(res, tuple) else 3)
+        items = res.arrays if isinstance(res, BlockArray) else (list(res) if isinstance(res, tuple) else [])
+        r["n"] = len(items)
+        if arrv and not isinstance(res, BlockArray):
+            r.update(status="viol", what=f"array-valued {kind} returns {type(res).__name__}, not a BlockArray"
+                                         + (" while the blocks are traced" if traced else ""))
+        elif not arrv and not isinstance(res, tuple):
+            r.update(status="viol", what=f"non-array valued {kind} returns {type(res).__name__}, not a tuple")
+        elif len(items) != len(exps):
+            r.update(status="viol", what="number of entries differs from the number of blocks")
+        else:
+            for o, e in zip(items, exps):
+                lo_, to_ = jax.tree_util.tree_flatten(o)
+                le_, te_ = jax.tree_util.tree_flatten(e)
+                if to_ != te_ or len(lo_) != len(le_):
+                    r.update(status="viol", what="entry structure differs from the per-block value")
+                    break
+                for a, b in zip(lo_, le_):
+                    if isinstance(b, jax.Array):
+                        if not isinstance(a, jax.Array) or a.shape != b.shape or a.dtype != b.dtype:
+                            r.update(status="viol", what="entry differs from the per-block value (type, shape or dtype)")
+                        else:
+                            got_l.append(a)
+                            exp_l.append(b)
+                    else:
+                        try:
+                            same = a is b or bool(a == b) or type(a) is type(b)
+                        except Exception:  # noqa
+                            same = type(a) is type(b)
+                        if not same:
+                            r.update(status="viol", what="non-array entry differs from the per-block value")
+        r["hi"] = len(got_l)
+    return got_l, exp_l
+
+
+def traced_attr_case(rng, mode, names=None):
+    """-> (records, blocks json)"""
+    import jax
+    import jax.numpy as jnp
+    import scico.numpy as snp
+    from scico.numpy import BlockArray
+    names = names or attr_names()
+    cplx = mode in ("eager", "jit-complex", "vmap")
+    if mode == "jit-complex":       # (complex argmax etc. trace but do not lower: properties only)
+        names = [t for t in names if t[0] == "prop"]
+    nb = rng.randint(1, 3)
+    xs = gen_blocks(rng, "mat", n=nb, dtype="complex128" if cplx else "float64")
+    xs = [jnp.asarray(b) for b in xs]
+    rec = []
+    got = exp = None
+    err = None
+    try:
+        if mode == "eager":
+            got, exp = probe_attrs(BlockArray(xs), names, rec)
+        elif mode in ("jit", "jit-complex"):
+            got, exp = jax.jit(lambda X: probe_attrs(X, names, rec))(BlockArray(xs))
+        elif mode == "grad":
+            def tot(X):
+                g, e = probe_attrs(X, names, rec)
+                return sum(jnp.sum(l) for l in g if l.dtype.kind == "f") + snp.sum(X)
+            jax.grad(tot)(BlockArray(xs))
+        elif mode == "vmap":
+            got, exp = jax.vmap(lambda bl: probe_attrs(BlockArray(list(bl)), names, rec))([jnp.stack([b, 2 * b]) for b in xs])
+        elif mode == "jit-operator":
+            from scico.operator import Operator
+            X = BlockArray(xs)
+
+            def ev(x):
+                probe_attrs(x, names, rec)
+                return x
+            A = Operator(input_shape=X.shape, output_shape=X.shape, eval_fn=ev, input_dtype=X.dtype, output_dtype=X.dtype, jit=True)
+            A(X)
+        elif mode == "jit-functional":
+            from scico.functional import Functional
+
+            class Fn(Functional):
+                has_eval = True
+
+                def __call__(self, x):
+                    probe_attrs(x, names, rec)
+                    return snp.sum(x * x)
+            jax.jit(Fn().__call__)(BlockArray(xs))
+    except Exception as e:  # noqa
+        err = e
+    if err is not None:
+        rec.append({"kind": "mode", "name": mode, "traced": mode != "eager", "status": "viol", "lo": 0, "hi": 0,
+                    "what": f"reading the lifted attributes under {mode} raises {type(err).__name__} ({str(err)[:80]!r})"})
+        got = None
+    if rec and mode != "eager" and not any(r["traced"] for r in rec):
+        rec.append({"kind": "mode", "name": mode, "traced": False, "status": "viol", "lo": 0, "hi": 0,
+                    "what": "harness: the probe was not traced"})
+    if got is not None:
+        for r in rec:
+            if r["status"] == "ok":
+                for a, b in zip(got[r["lo"]:r["hi"]], exp[r["lo"]:r["hi"]]):
+                    if not leaf_same(a, b):
+                        r.update(status="viol", what="value differs from the per-block value computed in the same trace")
+    return rec, jsonable(xs)
+
+
 # ---------------------------------------------------------------- run / replay
 
 import random as _random
@@ -1386,6 +1607,44 @@ def run(ctx: Ctx):
                 unit = "BlockArray.__setitem__" if tn == "setitem_dtype" else "jax-transform"
                 ctx.violation(unit, r["what"], r["inp"], oracle="the same transformation applied to the tuple of blocks")
 
+    # (F) constructor guard: every order of mixed-dtype block lists must be rejected
+    hows = ["BlockArray", "blockarray-tuple", "blockarray-list"]
+    for i, kinds in enumerate(ctor_cases(ctx)):
+        for how in (hows if not ctx.quick else [hows[i % 3]]):
+            what, coq, inp = run_ctor_case(kinds, how)
+            ctx.count("constructor", inp, nontrivial=len(kinds) > 1)
+            add_coq(coq, ("BlockArray.__init__", "constructor accepts / rejects differently from the model guard "
+                                                 "(all blocks must have the dtype of block 0)", inp, None))
+            if what:
+                ctx.violation("BlockArray.__init__", what, inp, expected="ValueError iff two blocks differ in dtype, in every order",
+                              oracle="dtype of each block as a jax array")
+
+    # (G) every lifted property / method read eagerly and while traced (jit, grad, vmap, jitted Operator / Functional)
+    eager = {}
+    for mode in TRACE_MODES:
+        for rep in range(ctx.n(1, 3)):
+            cs = ctx.rng.getrandbits(40)
+            # quick tier: every property in every mode, the methods under jit (and eagerly in stream D)
+            sel = None if (not ctx.quick or mode == "jit") else [t for t in attr_names() if t[0] == "prop"]
+            rec, blocks = traced_attr_case(_random.Random(cs), mode, sel)
+            for r in rec:
+                inp = {"mode": mode, "kind": r["kind"], "name": r["name"], "blocks": blocks, "case_seed": cs}
+                ctx.count("attribute-" + mode, {"mode": mode, "name": r["name"], "seed": cs}, nontrivial=r["status"] != "both-raise")
+                if r["status"] == "viol":
+                    ctx.violation("BlockArray.attribute-traced", r["what"], inp, oracle="the attribute of each block in the same trace")
+                elif r["status"] == "ok" and r.get("container") in (0, 1):
+                    nb = len(blocks)
+                    add_coq(("attr", f"({'true' if r['traced'] else 'false'}, {'true' if r['arrv'] else 'false'}, "
+                             + coq_list([zlit(10 + i) for i in range(nb)]) + f", ({r['container']}, {r['n']}))"),
+                            ("BlockArray.attribute-traced", "container of the lifted attribute differs from the model "
+                             "(block array iff array valued, in every execution mode)", inp, None))
+                    key = (r["kind"], r["name"])
+                    if mode == "eager":
+                        eager[key] = r["container"]
+                    elif key in eager and eager[key] != r["container"]:
+                        ctx.violation("BlockArray.attribute-traced", "container (BlockArray / tuple) of the attribute differs between "
+                                      "eager and traced evaluation", inp, expected=eager[key], observed=r["container"])
+
     # name tables are exhaustive
     ctx.notes.append(f"names covered: {len(unary_ops)} unary + {len(binary_ops)} binary class operators (+{len(BIN_SYMS) + len(UN_SYMS)} "
                      f"operator symbols), {len(B.da_methods)} methods, {len(B.da_props)} properties, {len(snp.creation_routines)} creation "
@@ -1422,6 +1681,12 @@ def replay(ctx: Ctx, rec):
         what = random_case(_random.Random(inp["case_seed"]), inp["name"], inp["variant"]).get("what")
     elif unit == "BlockArray.attribute":
         what = attr_case(_random.Random(inp["case_seed"]), inp["kind"], inp["name"])["what"]
+    elif unit == "BlockArray.__init__":
+        what, coq, _ = run_ctor_case(inp["kinds"], inp["how"])
+    elif unit == "BlockArray.attribute-traced":
+        names = None if inp["kind"] == "mode" else [(inp["kind"], inp["name"])]
+        rec, _ = traced_attr_case(_random.Random(inp["case_seed"]), inp["mode"], names)
+        what = next((r["what"] for r in rec if r["status"] == "viol"), None)
     elif unit in ("jax-transform", "BlockArray.__setitem__"):
         r = transform_case(_random.Random(inp["case_seed"]), inp["transform"])
         what, coq = r["what"], r["inp"].get("coq")
